@@ -3,10 +3,22 @@ use crate::wal::paths::WalPathManager;
 use rkyv::{Archive, Deserialize, Serialize};
 use std::collections::{HashMap, HashSet};
 use std::fs;
+#[cfg(not(walrus_verif))]
 use std::sync::atomic::{AtomicBool, AtomicU64, Ordering};
+#[cfg(walrus_verif)]
+use crate::wal::verif::sync::atomic::{AtomicBool, AtomicU64, Ordering};
+#[cfg(not(walrus_verif))]
 use std::sync::mpsc;
+#[cfg(walrus_verif)]
+use crate::wal::verif::sync::mpsc;
+#[cfg(not(walrus_verif))]
 use std::sync::{Arc, RwLock};
+#[cfg(walrus_verif)]
+use crate::wal::verif::sync::{Arc, RwLock};
+#[cfg(not(walrus_verif))]
 use std::thread;
+#[cfg(walrus_verif)]
+use crate::wal::verif::thread;
 use std::time::Duration;
 
 #[derive(Archive, Deserialize, Serialize, Debug, Clone)]
